@@ -563,14 +563,14 @@ def impl(c):
     if k == 'nmap':
         def it():
             out = []
-            for x in itertools.islice(iter_nmap_range(a[1]), FUEL):
+            for x in itertools.islice(common.paired(lambda: iter_nmap_range(a[1])), FUEL):
                 out.append(str(int(x)) if x.version == 4 else '%d:%d' % (x.version, int(x)))
             return plist(out)
         return _try(lambda: tf(valid_nmap_range(a[1]))) + ' ' + _try(it)
     if k == 'nmulti':
         out = []
         try:
-            for x in itertools.islice(iter_nmap_range(*a[1]), FUEL * max(1, len(a[1]))):
+            for x in itertools.islice(common.paired(lambda: iter_nmap_range(*a[1])), FUEL * max(1, len(a[1]))):
                 out.append(str(int(x)) if x.version == 4 else '%d:%d' % (x.version, int(x)))
             return plist(out)
         except Exception:
